@@ -264,7 +264,9 @@ package container
 //@ assigns MetasPos, MetasKey
 //@ ensures [sound] forall(i, int, implies(0 <= i && i < len(result), result[i] != nil && self.DefDom[result[i].Name()] && self.Def[result[i].Name()] == result[i]), result[i])
 //@ requires [options-callable] forall(j, int, forall(n, string, implies(0 <= j && j < len(opts) && self.DefDom[n], opts[j] != nil && callpre(opts[j], self.Def[n]))))
-//@ ensures [filtered] forall(i, int, forall(j, int, implies(0 <= i && i < len(result) && 0 <= j && j < len(opts), call(opts[j], result[i]))))
+//@ ensures [filtered] forall(i, int, forall(j, int, implies(0 <= i && i < len(result) && 0 <= j && j < len(opts), call(opts[j], result[i])), opts[j]), result[i])
+// the same for the first two options, spelled out (callers pass one or two options: the ground index terms seed the solver's matching)
+//@ ensures [filtered-first-two] forall(i, int, implies(0 <= i && i < len(result), implies(len(opts) >= 1, call(opts[0], result[i])) && implies(len(opts) >= 2, call(opts[1], result[i]))), result[i])
 //@ ensures [complete] forall(n, string, implies(self.DefDom[n] && forall(j, int, implies(0 <= j && j < len(opts), call(opts[j], self.Def[n]))), 0 <= MetasPos[n] && MetasPos[n] < len(result) && result[MetasPos[n]] == self.Def[n]), self.DefDom[n])
 //@ ensures [no-dup] forall(i, int, forall(j, int, implies(0 <= i && i < j && j < len(result), result[i] != result[j])))
 //@ ensures [fresh-list] backing(result) == 0 || fresh(result)
